@@ -2,6 +2,7 @@
 # Builds the driver and warms the Go build cache (offline; everything comes from disk).
 set -e
 cd "$(dirname "$0")"
+export VERIF_ROOT="$(pwd)"
 export GOFLAGS=-mod=mod GOPROXY=off GOSUMDB=off GOTOOLCHAIN=local CGO_ENABLED=0
 mkdir -p bin evidence replays
 (cd harness && go build -o ../bin/run ./cmd/run)
